@@ -568,20 +568,35 @@ fn drive<D: Distribution1D>(d: &D, c: &Case, prog: &AtomicU64) -> Sampled {
 /// The only place that touches the library for sub-check `sample` (runs on the watched thread).
 fn sample_all(law: Law, c: &Case, prog: &AtomicU64) -> Sampled {
     alea::set_seed(c.seed);
+    // "Every valid parameter setting" includes settings reached by re-parameterising an existing object: for
+    // odd seeds the object is first built with other valid parameters and then moved to the case's parameters
+    // by a bulk `update` (a sampler that caches anything derived from its parameters must refresh it).
+    let via_update = c.seed & 1 == 1;
+    macro_rules! go {
+        ($start:expr, $direct:expr, [$($p:expr),+]) => {{
+            if via_update {
+                let mut d = $start;
+                d.update(&[$($p as f64),+]);
+                drive(&d, c, prog)
+            } else {
+                drive(&$direct, c, prog)
+            }
+        }};
+    }
     match law {
-        Law::Normal { mu, sigma } => drive(&Normal::new(mu, sigma), c, prog),
-        Law::Gamma { a, rate } => drive(&Gamma::new(a, rate), c, prog),
-        Law::Beta { a, b } => drive(&Beta::new(a, b), c, prog),
-        Law::Chi2 { dof } => drive(&ChiSquared::new(dof), c, prog),
-        Law::T { dof } => drive(&T::new(dof), c, prog),
-        Law::Poisson { lam } => drive(&Poisson::new(lam), c, prog),
-        Law::Binomial { n, p } => drive(&Binomial::new(n, p), c, prog),
-        Law::Exp { rate } => drive(&Exponential::new(rate), c, prog),
-        Law::Gumbel { mu, beta } => drive(&Gumbel::new(mu, beta), c, prog),
-        Law::Pareto { alpha, minval } => drive(&Pareto::new(alpha, minval), c, prog),
-        Law::Uniform { lo, hi } => drive(&Uniform::new(lo, hi), c, prog),
-        Law::DUniform { lo, hi } => drive(&DiscreteUniform::new(lo, hi), c, prog),
-        Law::Bernoulli { p } => drive(&Bernoulli::new(p), c, prog),
+        Law::Normal { mu, sigma } => go!(Normal::new(-3.0, 2.5), Normal::new(mu, sigma), [mu, sigma]),
+        Law::Gamma { a, rate } => go!(Gamma::new(3.5, 0.75), Gamma::new(a, rate), [a, rate]),
+        Law::Beta { a, b } => go!(Beta::new(2.5, 1.75), Beta::new(a, b), [a, b]),
+        Law::Chi2 { dof } => go!(ChiSquared::new(7), ChiSquared::new(dof), [dof]),
+        Law::T { dof } => go!(T::new(7.5), T::new(dof), [dof]),
+        Law::Poisson { lam } => go!(Poisson::new(50.0), Poisson::new(lam), [lam]),
+        Law::Binomial { n, p } => go!(Binomial::new(23, 0.3), Binomial::new(n, p), [n, p]),
+        Law::Exp { rate } => go!(Exponential::new(0.25), Exponential::new(rate), [rate]),
+        Law::Gumbel { mu, beta } => go!(Gumbel::new(2.0, 3.5), Gumbel::new(mu, beta), [mu, beta]),
+        Law::Pareto { alpha, minval } => go!(Pareto::new(3.5, 0.25), Pareto::new(alpha, minval), [alpha, minval]),
+        Law::Uniform { lo, hi } => go!(Uniform::new(-4.0, 9.0), Uniform::new(lo, hi), [lo, hi]),
+        Law::DUniform { lo, hi } => go!(DiscreteUniform::new(-4, 9), DiscreteUniform::new(lo, hi), [lo, hi]),
+        Law::Bernoulli { p } => go!(Bernoulli::new(0.3), Bernoulli::new(p), [p]),
     }
 }
 
@@ -1188,6 +1203,13 @@ fn mk_mvn(d: usize, kind: u8, salt: u64, n: usize, seed: u64) -> MvnCase {
             match kind {
                 0 => 1.0,
                 2 => r4(10f64.powf(6.0 * u - 3.0)),
+                // kind 3: a common scale far from 1 (standard deviations 1e-8 .. 1e-4 or 1e4 .. 1e8) times a
+                // decade of variation: the requested covariance is what must come out, whatever its magnitude
+                // (an absolute ridge / jitter / threshold inside the sampler shows up here)
+                3 => {
+                    let e = [-8.0, -6.0, -5.0, -4.0, 4.0, 8.0][(salt % 6) as usize];
+                    10f64.powf(e) * r4(10f64.powf(u - 0.5))
+                }
                 _ => r4(10f64.powf(u - 0.5)),
             }
         })
@@ -1203,12 +1225,12 @@ fn mk_mvn(d: usize, kind: u8, salt: u64, n: usize, seed: u64) -> MvnCase {
     let mean: Vec<f64> = (0..d)
         .map(|i| if kind == 0 { 0.0 } else { r4((2.0 * unit(salt, "C03/mvn/m", i as u64) - 1.0) * 100.0 * sc[i]) })
         .collect();
-    let kinds = ["standard", "correlated", "ill-scaled"];
-    MvnCase { d, mean, cov, n: n - n / 4, bulk: n / 4, seed, kind: kinds[kind as usize % 3].to_string() }
+    let kinds = ["standard", "correlated", "ill-scaled", "tiny-or-huge-scale"];
+    MvnCase { d, mean, cov, n: n - n / 4, bulk: n / 4, seed, kind: kinds[kind as usize % 4].to_string() }
 }
 
 fn mvn_strat(n: usize) -> impl Strategy<Value = MvnCase> {
-    (1usize..=6, 1u8..3, any::<u64>(), any::<u64>()).prop_map(move |(d, kind, salt, seed)| mk_mvn(d, kind, salt, n, seed))
+    (1usize..=6, 1u8..4, any::<u64>(), any::<u64>()).prop_map(move |(d, kind, salt, seed)| mk_mvn(d, kind, salt, n, seed))
 }
 
 // ---------------------------------------------------------------------------------------------
@@ -1318,8 +1340,8 @@ holding the parameters of the library's own moment tests, or is degenerate (MVN:
     let n_mvn = ctx.scale(200_000, 1_000_000) as usize;
     let mut mcases: Vec<MvnCase> = vec![];
     for d in 1..=6usize {
-        for kind in 0u8..3 {
-            let i = (d * 3 + kind as usize) as u64;
+        for kind in 0u8..4 {
+            let i = (d * 4 + kind as usize) as u64;
             mcases.push(mk_mvn(d, kind, mix_seed(ctx.seed, "C03/mvn/salt", i), n_mvn, mix_seed(ctx.seed, "C03/mvn/seed", i)));
         }
     }
